@@ -74,13 +74,20 @@ theorem typeTerm_need (dt : DataType) : (typeTerm dt).need ≤ 16 := by
   | timestamp u tz => cases tz <;> simp [typeTerm, identT, callT, Term.need, Terms.need]
   | _ => simp [typeTerm, identT, callT, Term.need, Terms.need]
 
+theorem typeTerm_depth (dt : DataType) : (typeTerm dt).depth ≤ 2 := by
+  cases dt with
+  | timestamp u tz => cases tz <;> simp [typeTerm, identT, callT, Term.depth, Terms.depth]
+  | _ => simp [typeTerm, identT, callT, Term.depth, Terms.depth]
+
 /-- `Term::from_str` reads the printed data type back as its term -/
 theorem fromStr_showType (esc : Char → Bool) (dt : DataType) (h : printable dt = true) :
     Term.fromStr (showType esc dt) = .ok (typeTerm dt) := by
   have hp := parseTerm_show esc (typeTerm dt) (typeTerm_OK dt) (3 * (showType esc dt).length + 16) []
     (by have := typeTerm_need dt; omega) (by intro c r h; cases h)
   rw [List.append_nil, ← showType_eq_showTerm esc dt h] at hp
-  simp only [Term.fromStr, Term.fromStrWith, hp, bind, Except.bind, trimStart, ↓reduceIte]
+  have hd : ¬ (typeTerm dt).depth > MAX_TERM_DEPTH := by
+    have := typeTerm_depth dt; unfold MAX_TERM_DEPTH; omega
+  simp only [Term.fromStr, Term.fromStrWith, hp, bind, Except.bind, trimStart, hd, ↓reduceIte]
   rfl
 
 end SaModel.Dsl
